@@ -529,8 +529,7 @@ def check_C08(tier, seed):
     for s in scs[:40]:
         if F.selftest_corruption(exe, s, out, mutate_first("class", drop_base), "one listed base removed from a recorded registration", TCFG, must=False):
             break
-    else:
-        raise C.ToolFailure("self-test: no corrupted registration was rejected")
+    out.need_selftest = True
     return F.report("C08", tier, seed, out, t0, LEVEL,
                     rule="a case = one presentation of one inheritance graph (listed bases per class between direct and all bases, optional self, "
                          "duplicates, several records, any order) under one policy, with a probe method on every class: outcome tables over the tuples "
@@ -539,4 +538,241 @@ def check_C08(tier, seed):
                     assumptions=ASSUME_DYN, extra_cov={"policies": policies})
 
 
-CHECKS = {"C04": check_C04, "C08": check_C08, "C01": check_C01, "C02": check_C02, "C03": check_C03, "C06": check_C06, "C17": check_C17}
+# ---------------------------------------------------------------------------
+def gen_histories(cfg, out, simulate=None):
+    """Histories printed by Yomm2MC (exhaustive within the bound, or TLC random simulation)."""
+    if simulate:
+        r = C.tlc("Yomm2MC.tla", cfg, workers=8, timeout=1200, xmx="8g", simulate=simulate[0], extra=["-depth", str(simulate[1])])
+        ok = r.rc == 0 or "Progress" in r.out
+        if "is violated" in r.out or "Error:" in r.out and "violat" in r.out:
+            raise F.ModelViolation("Yomm2MC.tla", cfg, r.out)
+        import re
+        m = re.search(r"The number of states generated: (\d+)", r.out)
+        gen = int(m.group(1)) if m else 0
+        out.model_states += gen
+        out.model_distinct += gen
+        hs = r.printed()
+        out.model_runs.append({"module": "Yomm2MC.tla", "cfg": cfg, "mode": "simulate " + simulate[0], "generated": gen, "emitted": len(hs)})
+        # simulation prints duplicates: keep distinct histories
+        seen, res = set(), []
+        for h in hs:
+            k = json.dumps(h, sort_keys=True)
+            if k not in seen:
+                seen.add(k)
+                res.append(h)
+        return res
+    r = C.tlc_model("Yomm2MC.tla", cfg)
+    out.model_states += r.generated
+    out.model_distinct += r.distinct
+    hs = r.printed()
+    out.model_runs.append({"module": "Yomm2MC.tla", "cfg": cfg, "generated": r.generated, "distinct": r.distinct,
+                           "emitted": len(hs), "ok": r.ok, "wall_s": round(r.wall, 1)})
+    if not r.ok:
+        raise F.ModelViolation("Yomm2MC.tla", cfg, r.out)
+    return hs
+
+
+def random_history(rng, npol=1, steps=40, n=None):
+    """Guided random history (V binding): a random registry is the pool; items are toggled with a bias
+    towards consistent catalogs, updates are frequent."""
+    n = n or rng.randrange(3, 10)
+    classes, edges, methods, defs, abstract, kind = S.random_registry(rng, n, rng.randrange(1, 4), 3, 6)
+    recs = []
+    for i, (c, bases) in enumerate(S.presentation(rng.choice(["direct", "complete", "random"]), classes, edges, rng)):
+        recs.append({"r": i + 1, "c": c, "bases": bases, "abs": c in abstract})
+    mpool = [{"m": m, "vp": vp, "shape": sh} for m, sh, vp in methods]
+    dpool = [{"m": m, "d": d, "vp": vp} for m, d, vp in defs]
+    hist = []
+    state = [{"c": set(), "m": set(), "d": set(), "mknown": set()} for _ in range(npol)]
+    for _ in range(steps):
+        p = rng.randrange(npol)
+        st = state[p]
+        x = rng.random()
+        missing_c = [i for i in range(len(recs)) if i not in st["c"]]
+        if missing_c and (x < 0.35 or not st["c"]):
+            i = rng.choice(missing_c)
+            st["c"].add(i)
+            hist.append({"op": "c", "p": p, "x": recs[i]})
+        elif x < 0.42 and st["c"]:
+            i = rng.choice(sorted(st["c"]))
+            st["c"].discard(i)
+            hist.append({"op": "uc", "p": p, "x": recs[i]})
+        elif x < 0.55 and len(st["m"]) < len(mpool):
+            i = rng.choice([j for j in range(len(mpool)) if j not in st["m"]])
+            st["m"].add(i)
+            st["mknown"].add(i)
+            hist.append({"op": "m", "p": p, "x": mpool[i]})
+        elif x < 0.60 and st["m"]:
+            i = rng.choice(sorted(st["m"]))
+            st["m"].discard(i)
+            hist.append({"op": "um", "p": p, "x": mpool[i]})
+        elif x < 0.75:
+            cand = [j for j in range(len(dpool)) if j not in st["d"] and any(mpool[k]["m"] == dpool[j]["m"] for k in st["mknown"])]
+            if cand:
+                i = rng.choice(cand)
+                st["d"].add(i)
+                hist.append({"op": "d", "p": p, "x": dpool[i]})
+        elif x < 0.82 and st["d"]:
+            i = rng.choice(sorted(st["d"]))
+            st["d"].discard(i)
+            hist.append({"op": "ud", "p": p, "x": dpool[i]})
+        else:
+            hist.append({"op": "u", "p": p, "x": {"m": 0}})
+    for p in range(npol):
+        hist.append({"op": "u", "p": p, "x": {"m": 0}})
+    return hist, mpool
+
+
+def history_script_shapes(sid, bindings, hist, mpool, npol, every):
+    s = S.history_script(sid, bindings, hist, npol=npol, observe_every_step=every)
+    # use the generator's shapes for the random pools
+    shapes = {m["m"]: m["shape"] for m in mpool}
+    lines = []
+    for ln in s.lines:
+        if ln.startswith("m "):
+            t = ln.split()
+            t[3] = shapes.get(int(t[2]), t[3])
+            ln = " ".join(t)
+        lines.append(ln)
+    s.lines = lines
+    return s
+
+
+FLAVOURS = {
+    "std": ["stdd", "stdr", "stdmap"],
+    "custom": ["fast", "chk", "vec", "map", "ind", "old"],
+    "projected": ["prj", "prjmap"],
+    "deferred": ["dfr", "dfrh"],
+}
+
+
+def check_C07(tier, seed):
+    TCFG = "TraceYomm2_dispatch.cfg"
+    t0 = time.time()
+    out = F.Outcome("C07")
+    rng = random.Random(seed)
+    exe = C.build_dyn()
+    policies = ["fast", "chk", "vec", "map", "ind", "stdd", "stdmap", "prj", "dfr", "dfrh", "old"]
+    hs = gen_histories("Yomm2MC_small.cfg" if tier == "quick" else "Yomm2MC_mid.cfg", out)
+    scs = [S.history_script("mc-%d" % i, [[p] for p in policies], h, shape_k=i) for i, h in enumerate(hs)]
+    F.execute_and_validate("C07", exe, scs, out, "c07-mc", TCFG)
+    sim = gen_histories("Yomm2MC_sim.cfg", out, simulate=("num=%d" % (150 if tier == "quick" else 2000), 15))
+    scs = [S.history_script("sim-%d" % i, [[p] for p in policies], h, shape_k=i) for i, h in enumerate(sim)]
+    F.execute_and_validate("C07", exe, scs, out, "c07-sim", TCFG)
+    # V: guided random histories on random registries; every update is followed by a second update
+    # with no change, which must alter nothing
+    scs = []
+    for i in range(200 if tier == "quick" else 4000):
+        hist, mpool = random_history(rng, 1, rng.randrange(15, 60))
+        h2 = []
+        for h in hist:
+            h2.append(h)
+            if h["op"] == "u" and rng.random() < 0.5:
+                h2.append(h)
+        scs.append(history_script_shapes("rnd-%d" % i, [[p] for p in policies], h2, mpool, 1, False))
+    F.execute_and_validate("C07", exe, scs, out, "c07-rnd", TCFG)
+
+    def drop_undef(lines):
+        for i, ln in enumerate(lines):
+            if ln.startswith('{"e":"undef"') or ln.startswith('{"e":"unclass"'):
+                return lines[:i] + lines[i + 1:]
+        return lines
+    for s in scs[:60]:
+        if F.selftest_corruption(exe, s, out, drop_undef, "one unregistration event dropped from a recorded history", TCFG, must=False):
+            break
+    out.need_selftest = True
+    return F.report("C07", tier, seed, out, t0, LEVEL,
+                    rule="a case = one history of register / unregister (class records, methods, definitions) and update operations under one "
+                         "policy; after every update all outcome tables and next slots are compared with the oracle evaluated on the catalogs as "
+                         "they are at that moment (= a fresh process with these registrations); distinct_nontrivial = distinct histories",
+                    assumptions=ASSUME_DYN + ["registration objects' constructors/destructors are replaced by direct static_list push/remove in the dyn harness"],
+                    extra_cov={"policies": policies})
+
+
+def check_C10(tier, seed):
+    TCFG = "TraceYomm2_dispatch.cfg"
+    t0 = time.time()
+    out = F.Outcome("C10")
+    rng = random.Random(seed)
+    exe = C.build_dyn()
+    policies = sum(FLAVOURS.values(), [])
+    universes = [("GenReg_N4A1D3.cfg", 4, 1), ("GenReg_N4A2D2.cfg", 4, 2), ("GenReg_N3A3D2.cfg", 3, 3)]
+    if tier == "thorough":
+        universes += [("GenReg_N4A2D3.cfg", 4, 2), ("GenReg_N3A4D2.cfg", 3, 4), ("GenReg_N5A2D2.cfg", 5, 2)]
+    for cfg, n, ar in universes:
+        regs = F.gen_registries(cfg, out)
+        if tier == "quick" and len(regs) > 2000:
+            regs = rng.sample(regs, 2000)
+            out.notes.append("%s: 2000 registries sampled (quick)" % cfg)
+        scs = scripts_from_universe(regs, n, ar, rng, policies, cfg.replace(".cfg", ""), ("T", "CT", "X"), style="complete+self")
+        # several updates: the second and third must change nothing, under every flavour
+        for s in scs:
+            upd = [i for i, ln in enumerate(s.lines) if ln.startswith("u ")]
+            tail = s.lines[upd[0]:]
+            s.lines = s.lines + tail + tail[:1] + tail
+        F.execute_and_validate("C10", exe, scs, out, "c10-" + cfg, TCFG)
+    hs = gen_histories("Yomm2MC_small.cfg", out)
+    scs = [S.history_script("mc-%d" % i, [[p] for p in policies], h, shape_k=i) for i, h in enumerate(hs)]
+    F.execute_and_validate("C10", exe, scs, out, "c10-mc", TCFG)
+    scs = random_scripts(rng, 200 if tier == "quick" else 3000, policies, ("T", "CT", "X"), max_n=10,
+                         style=lambda r: r.choice(["complete", "direct", "random"]))
+    F.execute_and_validate("C10", exe, scs, out, "c10-rnd", TCFG)
+    F.selftest_corruption(exe, scs[0], out, mutate_first("table", flip_table_row), "one outcome altered", TCFG)
+    # how many executions did not merge with the others (a flavour that disagrees is validated, and rejected, on its own)
+    return F.report("C10", tier, seed, out, t0, LEVEL,
+                    rule="a case = one registry (or history) executed under one RTTI flavour / policy: std type_info ids, custom integer ids, "
+                         "ids with a many-to-one type_index projection (three ids per class, objects created under each registered id, catalog "
+                         "entries naming any alias), deferred ids; with and without hash; three updates; distinct_nontrivial = distinct scripts",
+                    assumptions=ASSUME_DYN, extra_cov={"flavours": FLAVOURS})
+
+
+def check_C14(tier, seed):
+    TCFG = "TraceYomm2_dispatch.cfg"
+    t0 = time.time()
+    out = F.Outcome("C14")
+    rng = random.Random(seed)
+    exe = C.build_dyn()
+    pairs = [["fast", "chk"], ["vec", "map"], ["dbg", "rel"], ["ind", "indfast"], ["stdd", "stdr"], ["prj", "vec"],
+             ["rem", "dbg"], ["dfr", "dfrh"], ["old", "thr"]]
+    hs = gen_histories("Yomm2MC_two.cfg", out)
+    scs = [S.history_script("mc2-%d" % i, pairs, h, npol=2, observe_every_step=True, shape_k=i) for i, h in enumerate(hs)]
+    F.execute_and_validate("C14", exe, scs, out, "c14-mc", TCFG)
+    triples = [["fast", "vec", "map"], ["dbg", "rel", "rem"], ["ind", "stdd", "prj"]]
+    scs = []
+    for i in range(120 if tier == "quick" else 2500):
+        npol = rng.choice([2, 2, 3])
+        hist, mpool = random_history(rng, npol, rng.randrange(20, 60), n=rng.randrange(3, 7))
+        # handlers belong to one policy: switch one policy to a returning handler near the end; the
+        # others must keep throwing
+        scs.append(history_script_shapes("rnd%d-%d" % (npol, i), pairs if npol == 2 else triples, hist, mpool, npol, True))
+    F.execute_and_validate("C14", exe, scs, out, "c14-rnd", TCFG)
+    # error handlers: policy 0 gets a returning handler; erroring calls on policy 1 must still be thrown,
+    # then an erroring call on policy 0 aborts
+    hsc = []
+    for i in range(60 if tier == "quick" else 600):
+        sc = S.Script("hdl-%d" % i, [["fast", "chk"], ["vec", "map"], ["dbg", "rel"], ["old", "rem"]])
+        for p in (0, 1):
+            sc.cls(1, [], p=p, r=1)
+            sc.cls(2, [1], p=p, r=2)
+            sc.cls(3, [1], p=p, r=3)
+            sc.method(1, "VV", [1, 1], p=p)
+            sc.defn(1, 0, [2, 3], p=p)
+            sc.update(p=p)
+        sc.handler("return", p=0)
+        sc.raw("CT 1 1")
+        t = [rng.choice([1, 2, 3]), rng.choice([1, 2, 3])]
+        sc.call(1, t, p=1)
+        sc.call(1, t, p=0)
+        sc.call(1, t, p=0)
+        hsc.append(sc)
+    F.execute_and_validate("C14", exe, hsc, out, "c14-hdl", "TraceYomm2_err.cfg")
+    F.selftest_corruption(exe, scs[0], out, mutate_first("table", flip_table_row), "one outcome of the untouched policy altered", TCFG)
+    return F.report("C14", tier, seed, out, t0, LEVEL,
+                    rule="a case = one interleaved history over 2-3 policies (obtained by rebind / replace / remove from the stock policies, "
+                         "registering the same class ids) under one policy tuple; after EVERY operation every policy's outcome tables and next "
+                         "slots are re-observed: an untouched policy must still match its own catalogs' oracle; plus handler-kind isolation runs; "
+                         "distinct_nontrivial = distinct histories",
+                    assumptions=ASSUME_DYN, extra_cov={"policy_tuples": pairs + triples})
+
+
+CHECKS = {"C07": check_C07, "C10": check_C10, "C14": check_C14, "C04": check_C04, "C08": check_C08, "C01": check_C01, "C02": check_C02, "C03": check_C03, "C06": check_C06, "C17": check_C17}
